@@ -827,15 +827,18 @@ func (ds *AnySource) writeControlStart(config *WriteControlConfig) error {
 			dsp.DataPublisher.LJH3.Column = colNum
 		}
 	}
+	before := ds.writingState.ComputeState()
 	if err := ds.writingState.Start(filenamePattern, path, config); err != nil {
 		// START failed half-way (e.g. the experiment-state file cannot be created). The request is answered with
-		// this error, so it must leave writing off: remove the writers set up above and reset the state.
+		// this error, so it must leave writing off: remove the writers set up above and reset the state,
+		// including what is reported to clients (pause flag, file types, base path).
 		for _, dsp := range ds.processors {
 			dsp.DataPublisher.RemoveLJH22()
 			dsp.DataPublisher.RemoveOFF()
 			dsp.DataPublisher.RemoveLJH3()
 		}
 		ds.writingState.Stop()
+		ds.writingState.restoreReported(before)
 		return err
 	}
 	return nil
